@@ -8,7 +8,7 @@ import vx, run, kanileg
 # property -> kani harnesses (complete = loop-free / unwinding-asserted full-domain proofs; bounded = stated bound)
 _ROUNDUP = ["u3_roundup_key_table", "u3_roundup_val_table", "u3_tables_are_the_documented_ones", "u3_is_valid_value", "u3_is_valid_key"]
 _VU64 = ["u0_encoded_len_is_spec", "u0_decoded_len_range", "u0_axiom_vu64"]
-_KEYTRAIT = ["u8_u64_cmp_u8_iff_equal", "u8_i64_cmp_u8_iff_equal", "u8_vu64_cmp_u8_iff_equal", "u8_u64_roundtrip", "u8_i64_roundtrip", "u8_vu64_roundtrip"]
+_KEYTRAIT = ["u8_bytes_string_from_u64_value_eq_ref", "u8_u64_cmp_u8_iff_equal", "u8_i64_cmp_u8_iff_equal", "u8_vu64_cmp_u8_iff_equal", "u8_u64_roundtrip", "u8_i64_roundtrip", "u8_vu64_roundtrip"]
 _HASH_INT = ["u9_hash_value_u64_all_values", "u9_hash_value_i64_all_values"] + ["u9_hash_value_vu64_len_%d" % i for i in range(1, 10)]
 _BYTES_CMP = {h: "byte/string keys of lengths (%s)" % h[len("u8_bytes_cmp_"):].replace("_", ",") for h in
               ["u8_bytes_cmp_0_0", "u8_bytes_cmp_0_1", "u8_bytes_cmp_3_3", "u8_bytes_cmp_3_4", "u8_bytes_cmp_5_3", "u8_bytes_cmp_6_6"]}
@@ -72,10 +72,10 @@ _H = [["history", "1", "12", "300"], ["history", "5", "6", "800"], ["history", "
 _SC = [["scan", "128", "k25", "k312", "k911", "k303"], ["scan", "8", "a", "b", "c", "d", "e", "f", "g", "h", "i", "j"], ["scan", "4", "a"],
        ["scan", "64", "k1", "k2", "k3", "k4", "k5", "k6", "k7", "k8", "k9", "k10", "k11", "k12"]]
 BOUNDED_SCEN = {
-    "C01": _H + [["putget", "5000"], ["putsweep"], ["keys"], ["pertype"]], "C10": [["keys"], ["pertype"]], "C02": [["reopen"], ["durable"], ["dbsync"], ["names"]] + _H[:4], "C03": [["flushdur"], ["durable"], ["dbsync"]],
-    "C04": _SC + _H[:2] + [["pertype"]], "C05": _H + [["reuse"]], "C06": [["reuse"], ["putsweep"], ["grow"]] + _H, "C07": [["bufsize", "131072"], ["bufsize", "1000"], ["reopen"], ["scan", "4", "a"]] + _H[:1],
-    "C08": _H, "C09": [["putget", "5000"], ["putget", "70000"], ["putsweep"]], "C12": [["reopen"]], "C13": [["sigmut"]], "C15": [["readonly"]],
-    "C14": [["bulk"]], "C16": [["flushdur"]], "C17": [["stats"]], "C18": [["determ"]],
+    "C01": _H + [["putget", "5000"], ["putsweep"], ["keys"], ["pertype"]], "C10": [["keys"], ["pertype"]], "C02": [["reopen"], ["durable"], ["dbsync"], ["names"]] + _H[:4], "C03": [["flushdur"], ["durable"], ["dbsync"], ["syncfail"]],
+    "C04": _SC + _H[:2] + [["pertype"]], "C05": _H + [["reuse"]], "C06": [["reuse"], ["putsweep"], ["grow"]] + _H, "C07": [["bufsize", "131072"], ["bufsize", "1000"], ["reopen"], ["dbsync"], ["scan", "4", "a"]] + _H[:1],
+    "C08": _H, "C09": [["putget", "5000"], ["putget", "70000"], ["putsweep"]], "C12": [["reopen"], ["sigmut"]], "C13": [["sigmut"]], "C15": [["readonly"]],
+    "C14": [["bulk"]], "C16": [["flushdur"], ["syncfail"]], "C17": [["stats"]], "C18": [["determ"]],
 }
 _replay_built = [False]
 WORK = os.environ.get("VERIF_WORK", ROOT)     # where out/ and evidence/ go (a regression run over seeded changes uses its own)
